@@ -402,6 +402,56 @@ Proof.
       * intros [H1 H2]. inversion H2; subst. split; [assumption|]. split; [apply le_S_n; exact H1 | assumption].
 Qed.
 
+(* GetPathDepth counts exactly the clauses that MatchesPath tokenises (and PutPathString files): the path,
+   less one leading '/', cut at every '/' *)
+Lemma split_on_after : forall sep p cur,
+  length (split_on sep p cur) = match after_sep sep p with Some t => S (length (split_on sep t [])) | None => 1%nat end.
+Proof.
+  induction p as [|c p IH]; intros cur; cbn [split_on after_sep]; [reflexivity|].
+  destruct (c =? sep); [reflexivity | apply IH].
+Qed.
+
+Lemma after_sep_shorter : forall sep p t, after_sep sep p = Some t -> (length t < length p)%nat.
+Proof.
+  induction p as [|c p IH]; intros t H; cbn [after_sep] in H; [discriminate H|].
+  destruct (c =? sep).
+  - inversion H; subst. cbn [length]. apply Nat.lt_succ_diag_r.
+  - apply IH in H. cbn [length]. apply Nat.lt_lt_succ_r. exact H.
+Qed.
+
+Lemma depth_loop_split : forall f p,
+  (length p < f)%nat -> depth_loop f p false = length (split_on ch_slash p []).
+Proof.
+  induction f as [|f IH]; intros p H; [inversion H|].
+  cbn [depth_loop]. rewrite orb_true_r. rewrite split_on_after.
+  destruct (after_sep ch_slash p) as [t|] eqn:E; [|reflexivity].
+  rewrite IH; [reflexivity|]. apply after_sep_shorter in E. lia.
+Qed.
+
+Lemma path_depth_clauses : forall p, path_depth p = length (hard_split ch_slash (skip_slash p)).
+Proof.
+  intros p. unfold path_depth. generalize (skip_slash p). intros q.
+  destruct q as [|c q]; [reflexivity|].
+  unfold hard_split. rewrite <- (depth_loop_split (S (length (c :: q))) (c :: q)) by apply Nat.lt_succ_diag_r.
+  reflexivity.
+Qed.
+
+Lemma forall2_len : forall (A B : Type) (R : A -> B -> Prop) l1 l2, Forall2 R l1 l2 -> length l1 = length l2.
+Proof. induction 1; cbn [length]; congruence. Qed.
+
+(* hence MatchesPath (one stored path, no filter) is exactly: as many clauses as matchers, each clause matched *)
+Lemma path_matches_exact : forall ms subject,
+  path_matches ms subject = true <->
+  Forall2 (fun m t => clause_ok1 m t = true) ms (hard_split ch_slash (skip_slash subject)).
+Proof.
+  intros ms subject. unfold path_matches. rewrite path_depth_clauses.
+  set (toks := hard_split ch_slash (skip_slash subject)).
+  rewrite andb_true_iff, Nat.eqb_eq, clauses_match_spec. split.
+  - intros (Hl & _ & H). rewrite <- Hl, firstn_all in H. exact H.
+  - intros H. pose proof (forall2_len _ _ _ _ _ H) as Hl. rewrite Hl. split; [reflexivity|].
+    split; [apply Nat.le_refl|]. rewrite <- Hl, firstn_all2 by (rewrite Hl; apply Nat.le_refl). exact H.
+Qed.
+
 (* ------------------------------------------------------------------ an example pattern for the non-vacuity checks *)
 
 (* a well-formed pattern using every construct:  a?*[^b-dx](\*|e,f.)  *)
